@@ -145,6 +145,15 @@ def drv(c, ctx, col):
             got = model_matrix(formula, df, output=output, drop_rows=reported, context=CTX)
         elif entry == "Formula.get_model_matrix":
             got = formula.get_model_matrix(df, output=output, drop_rows=reported, context=CTX)
+        elif entry == "materializer object after a failed call":
+            # the same materializer object first serves a call that fails late (an unknown column in an extra last part) and then the real one
+            from formulaic.materializers import PandasMaterializer
+            m = PandasMaterializer(df, context=CTX)
+            try:
+                m.get_model_matrix(Formula((formula, "no_such_column_")) if not isinstance(formula, tuple) else formula, output=output)
+            except Exception:  # noqa - expected
+                pass
+            got = m.get_model_matrix(formula, output=output, drop_rows=reported)
         else:
             got = ModelSpec.from_spec(formula, output=output).get_model_matrix(df, drop_rows=reported, context=CTX)
     except Exception as e:  # noqa
@@ -173,6 +182,17 @@ def drv(c, ctx, col):
             G, R = dense(part), dense(regen_all.get(path))
             if R.shape != G.shape or not np.allclose(R, G, rtol=1e-12, atol=1e-12, equal_nan=True):
                 col.violation(key, dict(detail, path=list(path), shape=list(G.shape), regenerated_shape=list(R.shape)), sig="structured-spec-does-not-regenerate-result")
+                return
+        # ... and so it does when an option is passed along (here: the output type it already has)
+        try:
+            regen_over = leaves(got.model_spec.get_model_matrix(df, context=CTX, output=output))
+        except Exception as e:  # noqa
+            col.violation(key, dict(detail, error="%s: %s" % (type(e).__name__, str(e)[:200])), sig="structured-spec-regeneration-with-override-raised:" + type(e).__name__)
+            return
+        for path, part in gl.items():
+            G, R = dense(part), dense(regen_over.get(path))
+            if R.shape != G.shape or not np.allclose(R, G, rtol=1e-12, atol=1e-12, equal_nan=True):
+                col.violation(key, dict(detail, path=list(path), shape=list(G.shape), regenerated_shape=list(R.shape)), sig="structured-spec-with-override-does-not-regenerate-result")
                 return
     for path, part in gl.items():
         G = dense(part)
@@ -207,7 +227,7 @@ def subchecks(tier, seed):
         Sub("parts", drv, {"specs": names, "K": 2 if quick else 3, "entries": ["model_matrix"] if quick else ["model_matrix", "Formula.get_model_matrix", "ModelSpec.get_model_matrix"],
                            "outputs": ["pandas"], "indexes": ["default"]},
             shard_depth=3, bounds={"structures": names, "rows": 4, "max_nulls": 2 if quick else 3, "cells": 16}),
-        Sub("parts-entries-outputs", drv, {"specs": names, "K": 1, "entries": ["model_matrix", "Formula.get_model_matrix", "ModelSpec.get_model_matrix"],
+        Sub("parts-entries-outputs", drv, {"specs": names, "K": 1, "entries": ["model_matrix", "Formula.get_model_matrix", "ModelSpec.get_model_matrix", "materializer object after a failed call"],
                                            "outputs": ["pandas", "numpy", "sparse"], "indexes": ["default", "strings", "nonunique"]},
             shard_depth=3, bounds={"structures": names, "rows": 4, "max_nulls": 1, "entries": 3, "outputs": 3, "indexes": 3}),
     ]
